@@ -60,6 +60,7 @@ HEADLINE = [
     "AsynqModel.Batching.C11_spec_every_step",
     "AsynqModel.Batching.C11_spec_prefix",
     "AsynqModel.Batching.C11_spec_rejects",
+    "AsynqModel.Batching.C11_model_every_step",   # non-vacuity: every history of the model meets the hypothesis, at every position
     "AsynqModel.Batching.C11_no_item_left_pending",
     "AsynqModel.Batching.C11_step_accepted",
     # per clause of the property text, all with the single hypothesis `Good s` (+ the batch / item is pending)
